@@ -53,6 +53,106 @@ class SOpaqueStr(Sym):
     def _sym_str(self):
         return self
 
+    # -- slices with constant bounds, concatenation, ordering, digit tests: SMT string theory --------------------------
+    def __getitem__(self, i):
+        n = z3.Length(self.t)
+        if isinstance(i, slice):
+            if i.step not in (None, 1):
+                raise OutOfSubset('string slice with a step')
+            a, b = i.start, i.stop
+            if not all(x is None or (isinstance(x, int) and not isinstance(x, bool)) for x in (a, b)):
+                raise OutOfSubset('string slice with symbolic bounds')
+
+            def pos(x, default):
+                if x is None:
+                    return default
+                if x >= 0:
+                    return z3.If(n < x, n, z3.IntVal(x))
+                return z3.If(n + x < 0, z3.IntVal(0), n + x)
+            lo, hi = pos(a, z3.IntVal(0)), pos(b, n)
+            return SOpaqueStr(z3.SubString(self.t, lo, z3.If(hi - lo < 0, z3.IntVal(0), hi - lo)))
+        if isinstance(i, int) and not isinstance(i, bool):
+            c = ctx()
+            ok = c.decide((n > i) if i >= 0 else (n >= -i))
+            if not ok:
+                raise IndexError('string index out of range')
+            return SOpaqueStr(z3.SubString(self.t, z3.IntVal(i) if i >= 0 else n + i, z3.IntVal(1)))
+        raise OutOfSubset('string index of type %s' % type(i).__name__)
+
+    def __add__(self, o):
+        t = self._co(o)
+        if t is None:
+            return NotImplemented
+        return SOpaqueStr(z3.Concat(self.t, t))
+
+    def __radd__(self, o):
+        t = self._co(o)
+        if t is None:
+            return NotImplemented
+        return SOpaqueStr(z3.Concat(t, self.t))
+
+    def _cmp(self, o, op):
+        t = self._co(o)
+        if t is None:
+            return NotImplemented
+        # Python compares code points lexicographically; so does the SMT-LIB str.< / str.<=
+        return mkbool({'<': self.t < t, '<=': self.t <= t, '>': t < self.t, '>=': t <= self.t}[op])
+
+    def __lt__(self, o): return self._cmp(o, '<')
+    def __le__(self, o): return self._cmp(o, '<=')
+    def __gt__(self, o): return self._cmp(o, '>')
+    def __ge__(self, o): return self._cmp(o, '>=')
+
+    def _digits_re(self):
+        from . import regex2smt as R
+        return z3.Plus(R._union(R._range(a, b) for a, b in R.category_ranges('digit')))
+
+    def isdigit(self):
+        ctx().assumptions.add('str.isdigit() = non-empty and every character in the Unicode decimal-digit category of `re` (\\d); '
+                              'characters that are digits but not decimals (superscripts) are outside the encoding')
+        return mkbool(z3.InRe(self.t, self._digits_re()))
+
+    def startswith(self, p, *a):
+        if a:
+            raise OutOfSubset('startswith with offsets')
+        t = self._co(p)
+        if t is None:
+            raise OutOfSubset('startswith of %s' % type(p).__name__)
+        return mkbool(z3.PrefixOf(t, self.t))
+
+    def endswith(self, p, *a):
+        if a:
+            raise OutOfSubset('endswith with offsets')
+        t = self._co(p)
+        if t is None:
+            raise OutOfSubset('endswith of %s' % type(p).__name__)
+        return mkbool(z3.SuffixOf(t, self.t))
+
+    def _sym_contains(self, sub):
+        t = self._co(sub)
+        if t is None:
+            raise OutOfSubset('`in` of %s on a symbolic string' % type(sub).__name__)
+        return mkbool(z3.Contains(self.t, t))
+
+    def _sym_int(self, *a):
+        # int(s): only for texts the path condition makes ASCII digit strings
+        from .values import mkint
+        c = ctx()
+        if a:
+            raise OutOfSubset('int(str, base)')
+        ascii_digits = z3.Plus(z3.Range(z3.StringVal('0'), z3.StringVal('9')))
+        if not c.decide(z3.InRe(self.t, ascii_digits)):
+            raise OutOfSubset('int() of a symbolic text that is not an ASCII digit string')
+        return mkint(z3.StrToInt(self.t))
+
+    def __getattr__(self, name):
+        if not name.startswith('_') and hasattr(str, name):
+            raise OutOfSubset('str.%s on an arbitrary symbolic text' % name)
+        raise AttributeError(name)
+
+    def __hash__(self):
+        raise OutOfSubset('hash of a symbolic text (dict/set key)')
+
     def __repr__(self):
         return 'SOpaqueStr(%s)' % self.t
 
